@@ -39,7 +39,7 @@ namespace opensmt {
     void static inline normalize(char *&rat, const char *flo, bool is_neg) {
         mpq_t num;
         mpq_init(num);
-        int val = mpq_set_str(num, flo, 0);
+        int val = mpq_set_str(num, flo, 10); // always decimal: base 0 would read a leading 0 as octal
         (void) val;
         assert(val != -1);
         mpq_canonicalize(num);
